@@ -1418,7 +1418,7 @@ class Interp:
                     raise Unsupported("dict.update(%r)" % (a,))
             base.update(kwargs)
             return None
-        if m == "setdefault" and args and isinstance(args[0], (str, int)):
+        if m == "setdefault" and args and (isinstance(args[0], (str, int)) or (isinstance(args[0], tuple) and _hashable_key(args[0]))):
             return base.setdefault(args[0], args[1] if len(args) > 1 else None)
         raise Unsupported("dict.%s%r" % (m, tuple(args)))
 
